@@ -19,6 +19,10 @@ def build(run):
     run.verify_c([mb])
     run.verify_c([NAC.multiply_borns_contract()], registry={"multiply_borns_at_ij": mb})
     run.verify_c([NAC.multiply_borns_safety_contract()])
+    from contracts import c_dynmat as DM
+    gd = NAC.get_dd_at_g_contract()
+    run.verify_c([gd])
+    run.verify_c([NAC.get_dd_contract()], registry={"get_dielectric_part": DM.get_dielectric_part_contract(), "get_dd_at_g": gd})
     import importlib
     for pid in ("C02", "C06", "C07", "C01", "C12", "C10"):
         importlib.import_module("props." + pid).build(run)
